@@ -20,6 +20,11 @@ import (
 // replayed for every successor), states are de-duplicated on a canonical
 // observable form, the invariant is evaluated after every command.
 
+// c16MaxTransitions caps one breadth-first search (the suspended-thread states
+// have thousands of distinct successors at depth 2; depth 3 over the full menu
+// is out of reach for them).
+const c16MaxTransitions = 40000
+
 type c16Init struct {
 	name   string
 	src    string
@@ -322,8 +327,10 @@ func init() {
 			Make: func() (func(), func(e *vsched.Exec) (string, *vsched.Violation)) {
 				var probs []string
 				states, trans, maxDepth := 0, 0, 0
+				capped := false
 				body := func() {
 					probs = nil
+					states, trans, maxDepth = 0, 0, 0
 					depth := 2
 					full := false
 					if tierThorough() {
@@ -344,9 +351,17 @@ func init() {
 						probs = append(probs, p+" [initial state]")
 					}
 					frontier := [][]string{{}}
-					for d := 1; d <= depth && len(frontier) > 0; d++ {
+					capped = false
+					for d := 1; d <= depth && len(frontier) > 0 && !capped; d++ {
 						var next [][]string
 						for _, hist := range frontier {
+							if trans >= c16MaxTransitions {
+								// deterministic cap (not wall-clock): breadth-first order, so every
+								// depth below d is complete and depth d is covered for a prefix of
+								// the frontier; reported in the observation
+								capped = true
+								break
+							}
 							for _, cmd := range menu {
 								s, p := c16Start(in)
 								if p != "" {
@@ -400,6 +415,9 @@ func init() {
 					if v != nil {
 						// one key per distinct failure class
 						v.Key = c16Key(v.Key)
+					}
+					if capped {
+						o += " capped-at-transition-limit"
 					}
 					return fmt.Sprintf("%s states=%d transitions=%d maxdepth=%d", o, states, trans, maxDepth), v
 				}
